@@ -162,18 +162,21 @@ func allChecksRaw() []*Check {
 		},
 		{
 			ID:    "C14",
-			Files: files(filesProg, []string{"gtree/c14.go"}),
+			Files: files(filesProg, filesVFS, []string{"gtree/c14.go"}),
 			Quick: []Job{
-				gjf("C14.reader.n4", "VerifC14Reader", 4, "C14.reader.nonnil", "C14.reader.is"),
+				gjf("C14.reader.n4", "VerifC14Reader", 4, "C14.reader.nonnil", "C14.reader.is", "C14.reader.nonnil/massive", "C14.reader.is/massive"),
+				{Name: "C14.reader.n3.lifo", Pkg: "gtree", Entry: "VerifC14Reader", N: 3, FSModel: true, Sched: "lifo", Expect: []string{"C14.reader.nonnil/massive", "C14.reader.is/massive"}},
 				gjf("C14.writer.n4", "VerifC14Writer", 4, "C14.writer.reported/text", "C14.writer.reported/encode", "C14.writer.reported/dryrun", "C14.writer.complete/text", "C14.writer.complete/encode", "C14.writer.nospurious/dryrun", "C14.writer.reported/massive", "C14.writer.nospurious/massive"),
 				gjf("C14.rootwriter.n4", "VerifC14WriterRoot", 4, "C14.rootwriter.reported/text", "C14.rootwriter.reported/encode", "C14.rootwriter.reported/dryrun", "C14.rootwriter.complete/text"),
 			},
 			Thorough: []Job{
-				gjf("C14.reader.n6", "VerifC14Reader", 6, "C14.reader.nonnil", "C14.reader.is"),
+				gjf("C14.reader.n6", "VerifC14Reader", 6, "C14.reader.nonnil", "C14.reader.is", "C14.reader.nonnil/massive", "C14.reader.is/massive"),
+				{Name: "C14.reader.n4.lifo", Pkg: "gtree", Entry: "VerifC14Reader", N: 4, FSModel: true, Sched: "lifo", Expect: []string{"C14.reader.nonnil/massive", "C14.reader.is/massive"}},
+				{Name: "C14.reader.n4.rnd8", Pkg: "gtree", Entry: "VerifC14Reader", N: 4, FSModel: true, Sched: "rnd8", Expect: []string{"C14.reader.nonnil/massive", "C14.reader.is/massive"}},
 				gjf("C14.writer.n6", "VerifC14Writer", 6, "C14.writer.reported/text", "C14.writer.reported/encode", "C14.writer.reported/dryrun", "C14.writer.complete/text", "C14.writer.complete/encode", "C14.writer.nospurious/dryrun", "C14.writer.reported/massive", "C14.writer.nospurious/massive"),
 				gjf("C14.rootwriter.n6", "VerifC14WriterRoot", 6, "C14.rootwriter.reported/text", "C14.rootwriter.reported/encode", "C14.rootwriter.reported/dryrun", "C14.rootwriter.complete/text"),
 			},
-			Bounds: "well-formed forests of N rows / programs of N nodes (quick 4, thorough 6). Reader: fails with a fresh error after k delivered rows, k symbolic in 0..N, routes iterator/non-iterator text, JSON, YAML, dry-run, walk. Writer: refuses write number j, j symbolic in 0..N (N = past the last write: never), modes text (both routes), JSON, YAML, TOML (single root), dry-run report, massive text / JSON / dry-run (FIFO policy), From-Root text (fused printer), From-Root JSON, MkdirFromRoot dry-run report on color.Output. Short writes that return a nil error violate io.Writer's contract and are not modelled. More of massive mode: C11.",
+			Bounds: "well-formed forests of N rows / programs of N nodes (quick 4, thorough 6). Reader: fails with a fresh error after k delivered rows, k symbolic in 0..N, routes iterator/non-iterator text, JSON, YAML, dry-run, walk, and massive-mode text, JSON, walk, mkdir and verify (FIFO; LIFO and 8 pseudo-random schedules in further jobs), k = 0 included (the failure precedes every hand-over). Writer: refuses write number j, j symbolic in 0..N (N = past the last write: never), modes text (both routes), JSON, YAML, TOML (single root), dry-run report, massive text / JSON / dry-run (FIFO policy), From-Root text (fused printer), From-Root JSON, MkdirFromRoot dry-run report on color.Output. Short writes that return a nil error violate io.Writer's contract and are not modelled. More of massive mode: C11.",
 			Assume: append([]string{parseContract, pathContract, encStub, "fatih/color under NoColor (Sprint is concatenation); bufio.Writer modelled as buffer + one Write at Flush"}, commonAssume...),
 		},
 		{
@@ -204,11 +207,14 @@ func allChecksRaw() []*Check {
 				{Name: "C15.LAny.3", Pkg: "markdown", Entry: "VerifLAny", N: 3, RealParse: true, Expect: []string{"LA.oneof", "LA.hierarchy", "LA.text", "LA.errclass"}},
 				{Name: "C15.same.3", Pkg: "gtree", Entry: "VerifC15Same", N: 3, RealParse: true, Expect: []string{"C15.canon.nil", "C15.spelling.nil", "C15.same"}},
 				{Name: "C15.same.sym2", Pkg: "gtree", Entry: "VerifC15Same", N: 102, RealParse: true, Expect: []string{"C15.canon.nil", "C15.spelling.nil", "C15.same"}},
+				{Name: "C15.same.blank3", Pkg: "gtree", Entry: "VerifC15Same", N: 13, RealParse: true, Expect: []string{"C15.canon.nil", "C15.spelling.nil", "C15.same"}},
+				{Name: "C15.same.massive.blank3", Pkg: "gtree", Entry: "VerifC15Same", N: 1013, RealParse: true, Expect: []string{"C15.canon.nil", "C15.spelling.nil/massive", "C15.same/massive", "C15.noleak"}},
 				{Name: "C15.LScan.5", Pkg: "gtree", Entry: "VerifLScan", N: 5, RealParse: true, RealScan: true, Expect: []string{"LS.err", "LS.lines", "LS.end"}},
 				{Name: "C15.lines.3", Pkg: "gtree", Entry: "VerifC15Lines", N: 3, RealParse: true, RealScan: true, Expect: []string{"C15.lines.nil/text", "C15.lines.same/text", "C15.lines.same/noiter", "C15.lines.same/json", "C15.lines.same/dryrun", "C15.lines.end"}},
 				{Name: "C15.lines.massive3", Pkg: "gtree", Entry: "VerifC15Lines", N: 13, RealParse: true, RealScan: true, Expect: []string{"C15.lines.nil/massive", "C15.lines.same/massive", "C15.lines.noleak", "C15.lines.end"}},
 			},
 			Thorough: []Job{
+				{Name: "C15.same.massive.blank4", Pkg: "gtree", Entry: "VerifC15Same", N: 1014, RealParse: true, Expect: []string{"C15.canon.nil", "C15.spelling.nil/massive", "C15.same/massive", "C15.noleak"}},
 				{Name: "C15.LScan.7", Pkg: "gtree", Entry: "VerifLScan", N: 7, RealParse: true, RealScan: true, Expect: []string{"LS.err", "LS.lines", "LS.end"}},
 				{Name: "C15.lines.4", Pkg: "gtree", Entry: "VerifC15Lines", N: 4, RealParse: true, RealScan: true, Expect: []string{"C15.lines.nil/text", "C15.lines.same/text", "C15.lines.same/noiter", "C15.lines.same/json", "C15.lines.same/dryrun", "C15.lines.end"}},
 				{Name: "C15.lines.massive4", Pkg: "gtree", Entry: "VerifC15Lines", N: 14, RealParse: true, RealScan: true, Expect: []string{"C15.lines.nil/massive", "C15.lines.same/massive", "C15.lines.noleak", "C15.lines.end"}},
@@ -221,7 +227,7 @@ func allChecksRaw() []*Check {
 				{Name: "C15.same.blank3", Pkg: "gtree", Entry: "VerifC15Same", N: 13, RealParse: true, Expect: []string{"C15.canon.nil", "C15.spelling.nil", "C15.same"}},
 				{Name: "C15.same.sym2", Pkg: "gtree", Entry: "VerifC15Same", N: 102, RealParse: true, Expect: []string{"C15.canon.nil", "C15.spelling.nil", "C15.same"}},
 			},
-			Bounds: "L-parse (real Parser.Parse, one inductive step from every state an accepted prefix can leave: fresh / after a root / after root+child (unit learnt) / after root+child+root, each with and without a leading heading): notation = indent char space|tab x unit 1..4 x bullet -,*,+ per row x # roots or not; row depth 0..3; names of 2 (quick) / 3 (thorough) arbitrary ASCII bytes, 2 bytes over all 256 values (thorough); headings #..### with/without the space; malformation classes no-bullet, empty text, indentation not a multiple of the unit, tabs and spaces mixed within one row, a row indented with the other character once the document's character is known (also after a new root), whitespace-only; arbitrary rows of 3/4 bytes (result/err exclusive, text non-empty). End to end (real parser + real tree code, text output): forests of 3 (quick) / 4 (thorough) rows, canonical spelling vs every member of the notation family, with a blank row at any position (thorough), with the first byte of every name symbolic for 2 rows. L-scan (real bufio.Scanner, bufio.ScanLines and strings.Reader from std's SSA): documents of 5 (quick) / 7 (thorough) arbitrary bytes over all 256 values are split exactly as the line contract of the tree-level harnesses says (split at LF, one trailing CR dropped, unterminated last line delivered iff non-empty); end to end with the real scanner: forests of 3/4 rows with LF or CRLF per row, with/without the last terminator, with 0..2 empty lines appended, text (both routes), JSON, dry-run and massive-mode text give byte-identical results. Assumed: heading names have no leading/trailing blanks and no leading '#'. Tree-level insensitivity to blank rows: C01; the splitter (massive mode): C10.",
+			Bounds: "L-parse (real Parser.Parse, one inductive step from every state an accepted prefix can leave: fresh / after a root / after root+child (unit learnt) / after root+child+root, each with and without a leading heading): notation = indent char space|tab x unit 1..4 x bullet -,*,+ per row x # roots or not; row depth 0..3; names of 2 (quick) / 3 (thorough) arbitrary ASCII bytes, 2 bytes over all 256 values (thorough); headings #..### with/without the space; malformation classes no-bullet, empty text, indentation not a multiple of the unit, tabs and spaces mixed within one row, a row indented with the other character once the document's character is known (also after a new root), whitespace-only; arbitrary rows of 3/4 bytes (result/err exclusive, text non-empty). End to end (real parser + real tree code, text output): forests of 3 (quick) / 4 (thorough) rows, canonical spelling vs every member of the notation family, with a blank or whitespace-only row at any position (also in front of the first root), the spelling also through massive mode (same per-root blocks), with the first byte of every name symbolic for 2 rows. L-scan (real bufio.Scanner, bufio.ScanLines and strings.Reader from std's SSA): documents of 5 (quick) / 7 (thorough) arbitrary bytes over all 256 values are split exactly as the line contract of the tree-level harnesses says (split at LF, one trailing CR dropped, unterminated last line delivered iff non-empty); end to end with the real scanner: forests of 3/4 rows with LF or CRLF per row, with/without the last terminator, with 0..2 empty lines appended, text (both routes), JSON, dry-run and massive-mode text give byte-identical results. Assumed: heading names have no leading/trailing blanks and no leading '#'. Tree-level insensitivity to blank rows: C01; the splitter (massive mode): C10.",
 			Assume: append([]string{"real std strings code executed on symbolic bytes (leaf intrinsics: bytealg.IndexByteString, CountString, MakeNoZero; 256-entry tables as ite chains)"}, commonAssume...),
 		},
 		{
